@@ -48,7 +48,7 @@ def cases(tier, seed):
         # two maps per case (prediction = map i, reference = map n-1-i)
         for i in range(n):
             yield {"fam": name, "i": i}
-    for i in range(1500 if tier == "quick" else 40000):
+    for i in range(5000 if tier == "quick" else 120000):
         yield {"fam": "rand", "i": i}
     for i in range(24 if tier == "quick" else 96):
         yield {"fam": "many", "i": i}
